@@ -559,6 +559,11 @@ func VerifyEvidence(doc *document.Document, evidence *document.ChipAuthEvidence)
 		return nil, fmt.Errorf("[VerifyEvidence] DecodeX962EcPoint error: %w", err)
 	}
 
+	// the terminal private key must lie in [1, n-1]: k and k+n act alike and would otherwise both verify
+	if v := new(big.Int).SetBytes(evidence.TermPri); v.Sign() == 0 || v.Cmp((*curve).Params().N) >= 0 {
+		return nil, fmt.Errorf("[VerifyEvidence] terminal private key out of range")
+	}
+
 	// verify that the terminal public key is consistent with the private key
 	expX, expY := (*curve).ScalarBaseMult(evidence.TermPri)
 	if termPub.X.Cmp(expX) != 0 || termPub.Y.Cmp(expY) != 0 {
